@@ -44,6 +44,9 @@ const (
 	spBlockTight
 	spNoSpace
 	spInnerTab
+	spNBSP  // a no-break space (U+00A0) where the blank should be
+	spColon // `atlas:nolint: names`
+	spComma // names separated by a comma
 	nSpell
 )
 
@@ -86,6 +89,15 @@ func (d nlDirective) text() string {
 			return "-- atlas:nolint " + d.words[0] + "\t" + strings.Join(d.words[1:], " ")
 		}
 		return "-- atlas:nolint" + args(" ", " ") + "\t"
+	case spNBSP:
+		if len(d.words) == 0 {
+			return "-- atlas:nolint\u00a0"
+		}
+		return "-- atlas:nolint" + args("\u00a0", " ")
+	case spColon:
+		return "-- atlas:nolint:" + args(" ", " ")
+	case spComma:
+		return "-- atlas:nolint" + args(" ", ",")
 	}
 	panic("spell")
 }
@@ -94,13 +106,22 @@ func (d nlDirective) isBlock() bool {
 	return strings.HasPrefix(d.text(), "/*")
 }
 
-// usesTab: a tab stands where the documented form has a blank, and names follow it.
-func (d nlDirective) usesTab() bool {
+// sepCause: something other than a blank stands where the documented form has a blank, and names are
+// affected by it: "tab", "nonblank" (no-break space, colon, comma), or "".
+func (d nlDirective) sepCause() string {
 	if d.lookalike != "" || len(d.words) == 0 {
-		return false
+		return ""
 	}
-	return d.spell == spTabs || d.spell == spBlankTab || (d.spell == spInnerTab && len(d.words) >= 2)
+	switch {
+	case d.spell == spTabs, d.spell == spBlankTab, d.spell == spInnerTab && len(d.words) >= 2:
+		return "tab"
+	case d.spell == spNBSP, d.spell == spColon, d.spell == spComma && len(d.words) >= 2:
+		return "nonblank"
+	}
+	return ""
 }
+
+func (d nlDirective) usesTab() bool { return d.sepCause() != "" }
 
 type nlExpect struct {
 	code string
@@ -268,13 +289,13 @@ func genNolint(tier string) []*tcase {
 		for _, ws := range nlArgs {
 			// on the statement: every spelling
 			for sp := 0; sp < nSpell; sp++ {
-				if sp == spInnerTab && len(ws) == 0 {
+				if (sp == spInnerTab || sp == spComma) && len(ws) == 0 {
 					continue
 				}
 				add("nlStmt", sh, []nlDirective{{words: ws, spell: sp, place: "stmt", at: sh.target}})
 			}
 			// file header: line comments only, the header lines are trimmed
-			for _, sp := range []int{spPlain, spTwoBlanks, spTabs, spNoSpace, spInnerTab} {
+			for _, sp := range []int{spPlain, spTwoBlanks, spTabs, spNoSpace, spInnerTab, spNBSP, spColon} {
 				if sp == spInnerTab && len(ws) < 2 {
 					continue
 				}
@@ -343,7 +364,7 @@ func genNolint(tier string) []*tcase {
 				dirs = append(dirs, nlDirective{words: ws, place: "prevtrail", at: r.Intn(len(sh.stmts))})
 			default:
 				sp := r.Intn(nSpell)
-				if sp == spInnerTab && len(ws) == 0 {
+				if (sp == spInnerTab || sp == spComma) && len(ws) == 0 {
 					sp = spPlain
 				}
 				dirs = append(dirs, nlDirective{words: ws, spell: sp, place: "stmt", at: r.Intn(len(sh.stmts))})
@@ -362,8 +383,8 @@ func genNolint(tier string) []*tcase {
 func nlSingleCause(sh nlShape, dirs []nlDirective) bool {
 	causes := map[string]bool{}
 	for _, d := range dirs {
-		if d.usesTab() {
-			causes["tab"] = true
+		if c := d.sepCause(); c != "" {
+			causes[c] = true
 		}
 		if d.place == "prevtrail" {
 			causes["trailing"] = true
@@ -440,8 +461,8 @@ func oracleNolint(w *out.W, c *tcase, r *result) {
 					bare = true
 				}
 			}
-			if d.usesTab() {
-				tags["tab"] = true
+			if c := d.sepCause(); c != "" {
+				tags[c] = true
 			}
 			if d.place == "hdr" && d.lookalike != "" && strings.HasSuffix(d.lookalike, "atlas:nolint") {
 				tags["mention"] = true
